@@ -51,7 +51,7 @@ theorem sort_sorted (l : List Diag) : (stableSort l).Pairwise le := by
   exact this l [] List.Pairwise.nil
 
 /-- the whole model is a function of the document node (and of what strconv / ToLower say about its scalars) -/
-theorem lint_deterministic (cfg : AL.PW.Cfg) (isNum : String → Bool) (doc doc' : AL.Yaml.Node) (h : doc = doc') :
-    lint cfg isNum doc = lint cfg isNum doc' := by rw [h]
+theorem lint_deterministic (cfg : AL.PW.Cfg) (isNum urlOk : String → Bool) (doc doc' : AL.Yaml.Node) (h : doc = doc') :
+    lint cfg isNum urlOk doc = lint cfg isNum urlOk doc' := by rw [h]
 
 end AL.C02R
